@@ -14,14 +14,14 @@ def run(chk, tier):
         if not chk.need(r.is_snprintf_like(P.need_func(n, "traversal.c")), "R-SNP: %s is no longer recognised as an snprintf-like function" % n):
             pass
     st = r.run(chk)
-    chk.floor("R-SNP", "producer call sites in traversal.c", st["producers"], 20)
-    chk.floor("R-SNP", "cursor advance sites in traversal.c", st["advances"], 12)
+    chk.floor("R-SNP", "producer call sites in traversal.c", st["producers"], 15)
+    chk.floor("R-SNP", "cursor advance sites in traversal.c", st["advances"], 8)
     chk.rule("R-SNPSIZE", "snprintf into a fixed array uses a size <= sizeof(array)")
     n = snp.fixed_buffers(chk, P, ["traversal.c"])
-    chk.floor("R-SNPSIZE", "fixed-buffer snprintf sites in traversal.c", n, 6)
+    chk.floor("R-SNPSIZE", "fixed-buffer snprintf sites in traversal.c", n, 4)
     chk.rule("R-PROG", "every loop iteration changes state the next iteration can observe")
     nl = progloops.run(chk, P, ["traversal.c"])
-    chk.floor("R-PROG", "in-scope loops in traversal.c", nl, 7)
+    chk.floor("R-PROG", "in-scope loops in traversal.c", nl, 5)
     chk.rule("R-TAB", "finite tables decided exhaustively by folding the real functions with clang -O2 (witness TUs include the repo source; never linked or run)")
     n1 = tab.compare_types(chk, P)
     n2 = tab.public_kind_wrappers(chk, P)
